@@ -1,13 +1,14 @@
 """C15 — legacy IR optimiser and assembly peephole optimiser never change results.  See DESIGN.md 3/C15."""
 from vverif.contracts import legacy_opt as L
 from vverif.contracts import relational as R
+from vverif.contracts import peephole as PH
 from vverif.contracts.templates_lib import build
 
 PROPERTY = "C15"
 
-REL_QUICK = ("arith.uint256.", "arith.int128.", "cmp.int256.", "cmp.uint8.", "builtin.int256.", "shift.", "bool.", "ifexp", "convert.uint256.int128", "convert.decimal.int8",
-             "echo.uint8", "echo.struct", "sarray.index", "storage.rw", "storage.array", "storage.map", "if.else", "for.range", "assert.reason", "internal.call",
-             "dispatch.", "event.static", "lock.basic", "extcall.view", "decimal.div", "pow.uint256.", "unary.int256.", "in.list", "flag.ops")
+REL_QUICK = ("arith.uint256.add", "arith.uint256.sub", "arith.uint256.fdiv", "arith.uint256.mod", "arith.uint256.and", "arith.uint256.or", "arith.uint256.xor", "arith.int128.add", "arith.int128.sub", "arith.int128.and", "cmp.int256.", "cmp.uint8.", "builtin.int256.", "shift.", "bool.", "ifexp", "convert.uint256.int128", "convert.decimal.int8",
+             "echo.uint8", "echo.struct", "sarray.index;", "storage.rw", "storage.array", "storage.map", "if.else", "for.range", "assert.reason", "internal.tuple", "internal.memarg",
+             "dispatch.", "event.static", "lock.basic", "extcall.view", "decimal.add", "decimal.sub", "pow.uint256.", "unary.int256.", "in.list", "flag.ops")
 
 
 def jobs(tier, seed):
@@ -23,9 +24,15 @@ def jobs(tier, seed):
                           "args": (binop, parent, s0, s1), "functions": L.FUNCS, "engine": "PyVC"})
     for w in ("evm_div", "evm_mod", "signed_to_unsigned", "unsigned_to_signed", "wrap256", "evm_not", "ceil32"):
         J.append({"id": f"C15/P/utils.{w}", "fn": "vverif.contracts.legacy_opt:job_utils", "args": (w,), "functions": L.FUNCS_UTILS, "engine": "PyVC"})
+    for fam, alpha, length in PH.families(tier):
+        n = PH.n_windows(alpha, length)
+        step = 4000
+        for lo in range(0, n, step):
+            J.append({"id": f"C15/G/peephole-window[{fam};len={length};{lo}:{min(n, lo + step)}]", "fn": "vverif.contracts.peephole:job_windows",
+                      "args": (fam, alpha, length, lo, min(n, lo + step)), "functions": PH.FUNCS, "engine": "GenVC"})
     T = build(quick)
     for tid, src in T.items():
-        if quick and not tid.startswith(REL_QUICK):
+        if quick and not (tid + ";").startswith(REL_QUICK) and not tid.startswith(tuple(p for p in REL_QUICK if not p.endswith(";"))):
             continue
         for cfg in (("L-gas",) if quick else ("L-gas", "L-codesize")):
             J.append({"id": f"C15/G/optimized-equals-unoptimized[{tid};L-none~{cfg}]", "fn": "vverif.contracts.relational:job_rel", "args": (tid, src, "L-none", cfg),
@@ -35,7 +42,7 @@ def jobs(tier, seed):
 
 def replay(o):
     k = (o.get("replay") or {}).get("kind")
-    for mod in (L, R):
+    for mod in (L, R, PH):
         if k in mod.REPLAY:
             return mod.REPLAY[k](o)
     return {"reproduced": None, "detail": "no native replay"}
